@@ -171,6 +171,35 @@ func (ex *Exec) evalCall(c *ECall, env *CEnv, want string) TV {
 		at := ex.tvTerm(env, a, want)
 		bt := argT(2, at.Sort)
 		return TV{V: Ite(cnd, at, bt)}
+	case "string":
+		// string(b): the conversion of a byte slice (the same term the code's own string(b) yields)
+		if !need(1) {
+			return bad("string")
+		}
+		v := ex.eval(c.Args[0], env, "")
+		if sl, ok := v.V.(*SliceV); ok {
+			ex.declareUF("string_of", []string{"(Array (_ BitVec 64) (_ BitVec 8))", bvSort(64)}, SString)
+			return TV{V: app(SString, "string_of", ex.sliceArr(env.state(), sl), sl.Len)}
+		}
+		if t, ok := v.V.(*Term); ok && t.Sort == SString {
+			return TV{V: t}
+		}
+		return bad("string() of %s", c.Args[0].String())
+	case "strval":
+		// strval(x): the string held by interface value x (x was made from a string on this path)
+		if !need(1) {
+			return bad("strval")
+		}
+		v := ex.eval(c.Args[0], env, "")
+		if iv, ok := v.V.(*IfaceV); ok && !iv.Nil {
+			if t, ok := iv.V.(*Term); ok && t.Sort == SString {
+				return TV{V: t}
+			}
+		}
+		if t, ok := v.V.(*Term); ok && t.Sort == SString {
+			return TV{V: t}
+		}
+		return bad("strval of a value that is not an interface made from a string: %s", c.Args[0].String())
 	case "dyntype":
 		// dyntype(x, "T"): the dynamic type of interface value x is T (short name, e.g. "*BasicRetryPolicy")
 		if !need(2) {
